@@ -307,6 +307,14 @@ def oracle(ctx):
             ctx.violation('dict-attribute key is emitted unescaped', {'template': '<p tal:attributes="d"/>', 'key': key},
                           actual=out, finding='D-02a' if out == '<p %s="v"/>' % key else None)
 
+    # D-02b: a `string:` expression nested in ${...} escapes its parts itself and is then escaped again as a whole
+    for src, want in (('<p>${string:foo ${x}}</p>', '<p>foo &lt;&amp;&gt;</p>'), ('<p title="${string:foo ${x}}"/>', '<p title="foo &lt;&amp;&gt;"/>')):
+        ctx.count('evaluations')
+        out = PageTemplate(src)(x='<&>')
+        if out != want:
+            ctx.violation('un-escaping the inserted region once must give back the value (nested string: expression)', {'template': src, 'x': '<&>'},
+                          expected=want, actual=out, finding='D-02b' if out == want.replace('&lt;&amp;&gt;', '&amp;lt;&amp;amp;&amp;gt;') else None)
+
 
 def reproduce_finding(ctx, f):
     from chameleon import PageTemplate
